@@ -50,3 +50,31 @@ def run_tasks(func, tasks, nproc=None, hard_timeout=600, on_timeout=None):
         if running:
             time.sleep(0.05)
     return results
+
+
+def _do_chunk(arg):
+    func, group = arg
+    return [func(t) for t in group]
+
+
+def run_chunked(func, tasks, chunk=1, hard_timeout=600, nproc=None):
+    """yields (task, kind, value) with kind in {'ok', 'timeout', 'err'}; `chunk` tasks share one forked process (fresh per chunk)"""
+    groups = [tasks[i:i + chunk] for i in range(0, len(tasks), chunk)]
+    for (f, group), kind, val in run_tasks(_do_chunk, [(func, g) for g in groups], nproc=nproc, hard_timeout=hard_timeout):
+        if kind == 'ok':
+            for t, v in zip(group, val):
+                yield t, 'ok', v
+        else:
+            for t in group:
+                yield t, kind, val
+
+
+def collect(func, tasks, chunk, hard_timeout, fail_ob, flatten=True):
+    """common driver of the per-class checks: list of obligation dicts; a chunk that hangs or dies yields `fail_ob(task, why)` entries"""
+    out = []
+    for t, kind, val in run_chunked(func, tasks, chunk=chunk, hard_timeout=hard_timeout):
+        if kind == 'ok':
+            out.extend(val) if flatten else out.append(val)
+        else:
+            out.append(fail_ob(t, f'worker {kind}: {str(val)[:300]}'))
+    return out
